@@ -53,10 +53,14 @@ def replay_facade(model, method="oil_FVF", reassigned=False, container="array"):
     else:
         p_in = p
     args = (p_in, m["Tpc"], m["ppc"]) if method.startswith("gas") else (p_in,)
+    before = np.array(p, copy=True)
     try:
-        got = np.asarray(getattr(f, method)(*args), float)
+        raw = getattr(f, method)(*args)
+        got = np.array(raw, dtype=float, copy=True)
     except Exception as ex:  # noqa: BLE001
         return True, {"what": f"Fluid.{method} raised {ex!r} on a {container} of pressures", "inputs": m}
+    if container == "array" and (not np.array_equal(p, before) or raw is p):
+        return True, {"what": f"Fluid.{method} modified (or returned) the caller's pressure array: {before.tolist()} -> {np.asarray(p).tolist()}", "inputs": m}
     want = np.array([float(ref[method](q)) for q in p])
     bad = got.shape != want.shape or bool(np.any(np.abs(got - want) > 1e-12 * np.abs(want)))
     return bad, {"what": f"Fluid.{method} ({container} of pressures {p.tolist()}) = {got.tolist()} vs stand-alone correlation {want.tolist()}", "inputs": m}
@@ -76,6 +80,32 @@ def replay_sutton(model, case="no contaminants", fluid="dry gas"):
     b = gas.pseudocritical_point_Sutton(m["sg"], gas.make_nonhydrocarbon_properties(m["N2"], m["H2S"], m["CO2"], ("Helium", 0.0, 4.0, 9.4, 33.0)), fluid)
     bad = any(abs(x - y) > 1e-9 * abs(x) for x, y in zip(a, b))
     return bad, {"what": f"zero-fraction extra component changes the pseudocritical point: {a!r} vs {b!r}", "inputs": m}
+
+
+def _plain_obligations(job, f, dom, want, p):
+    for name, (args, ref) in want.items():
+        def run_plain():
+            snap = list(p.d)
+            out = getattr(f, name)(*args)
+            touched = len(p.d) != len(snap) or any(a is not b for a, b in zip(p.d, snap)) or out is p
+            p.d[:] = snap
+            return out, touched
+        for k, pr in enumerate(paths(job, run_plain, dom)):
+            if pr.exc is not None:
+                job.prove(f"facade/{name} raises[path{k}]", pr.pc, bound="2 pressures", replay=(replay_facade, {"method": name}), note=repr(pr.exc)[:80])
+                continue
+            got, touched = pr.value
+            if touched:
+                job._violation(f"facade/{name} leaves the caller's pressure array alone[path{k}]", {},
+                               {"what": "the pressure array was written to (or returned) by the method", "replayer": "replay_facade", "replayer_kwargs": {"method": name}}, None)
+            else:
+                job.record(f"facade/{name} leaves the caller's pressure array alone[path{k}]", "unsat", 0.0, note="effect check on the path: same elements, result is another object")
+            if not isinstance(got, SymArray) or len(got) != 2:
+                job.errors.append(f"facade/{name}: result is not a length-2 array")
+                continue
+            job.prove(f"facade/{name}==stand-alone correlation element-wise[path{k}]",
+                      pr.pc + [T.b_or(*[not_close(got.d[j], ref(p.d[j]), abs_tol=Fraction(0)) for j in range(2)])], bound="2 pressures",
+                      replay=(replay_facade, {"method": name}))
 
 
 def _container_obligations(job, f, vs, dom, want, p, names=None):
@@ -114,6 +144,7 @@ def job_facade_gas(job):
     T_, gg = vs["T"], vs["gg"]
     want = {"gas_FVF": ((p, vs["Tpc"], vs["ppc"]), lambda q: ufs["b_factor_DAK"](T_, q, vs["Tpc"], vs["ppc"])),
             "gas_viscosity": ((p, vs["Tpc"], vs["ppc"]), lambda q: ufs["viscosity_Sutton"](T_, q, vs["Tpc"], vs["ppc"], gg))}
+    _plain_obligations(job, f, dom, want, p)
     _container_obligations(job, f, vs, dom, want, p)
     job.prove("facade-gas/reach", dom, expect="sat")
 
@@ -229,18 +260,7 @@ def job_facade(job):
         "oil_FVF": ((p,), lambda q: ufs["b_o_Standing"](T_, q, api, gg, rsi)),
         "oil_viscosity": ((p,), lambda q: ufs["viscosity_beggs_robinson"](T_, q, api, gg, rsi)),
     }
-    for name, (args, ref) in want.items():
-        for k, pr in enumerate(paths(job, lambda: getattr(f, name)(*args), dom)):
-            if pr.exc is not None:
-                job.prove(f"facade/{name} raises[path{k}]", pr.pc, bound="2 pressures", replay=(replay_facade, {"method": name}), note=repr(pr.exc)[:80])
-                continue
-            got = pr.value
-            if not isinstance(got, SymArray) or len(got) != 2:
-                job.errors.append(f"facade/{name}: result is not a length-2 array")
-                continue
-            job.prove(f"facade/{name}==stand-alone correlation element-wise[path{k}]",
-                      pr.pc + [T.b_or(*[not_close(got.d[j], ref(p.d[j]), abs_tol=Fraction(0)) for j in range(2)])], bound="2 pressures",
-                      replay=(replay_facade, {"method": name}))
+    _plain_obligations(job, f, dom, want, p)
     _container_obligations(job, f, vs, dom, want, p)
     # the facade answers for the object's CURRENT attributes: an object built for one fluid whose public attributes are then
     # reassigned must answer for the new values (nothing frozen at construction time)
